@@ -66,7 +66,14 @@ def run(world, ext, data, output, backup, script, body_exc_at=None, body_exc=Non
     world.reset(files)
     fs = world.fs
     inp = world.path("in" + ext)
-    out = world.path("out" + ext) if output else None
+    # output: False (save in place) | True (another name) | "same" (the input's own name given as output name)
+    #         | "respelled" (the input's name in another spelling)
+    if output == "same":
+        out = inp
+    elif output == "respelled":
+        out = world.base + "/./in" + ext
+    else:
+        out = world.path("out" + ext) if output else None
     bak = world.path("bak" + ext) if backup else None
     before = world.snapshot()
     fs.calls = []
@@ -167,7 +174,7 @@ def fails_io(r, k):
     if (kind == "open" or not opened_w) and r["after"].get(iname) != r["data"]:
         fails.append({"clause": "a file could not be opened for writing (or the failure came before the input was opened for writing), yet the input file lost its original bytes", "expected": r["data"][:60], "observed": r["after"].get(iname, b"<missing>")[:60], "call": [k, kind, detail]})
     # once the input/output may have been damaged, a requested backup must already be complete
-    target = ("out" if r["output"] else "in") + r["ext"]
+    target = ("out" if r["output"] is True else "in") + r["ext"]
     target_opened = any(kk == "open" and d.startswith(target + " ") and "w" in d.split()[-1] for kk, d in r["calls"][: k + 1])
     bname = "bak" + r["ext"]
     if r["backup"] and target_opened and r["entry"] is not None:
@@ -327,13 +334,15 @@ def explore_shard(acc, shard):
         for with_chart, variant in ((False, None), (True, None), (True, "crlf")):
             if variant == "crlf" and fsname != "mem":
                 continue
-            for output in (False, True):
-                for backup, stale in ((False, False), (True, False), (True, True)) if not output else ((False, False), (False, True), (True, False), (True, True)):
+            for output in (False, True, "same", "respelled"):
+                for backup, stale in ((False, False), (True, False), (True, True)) if output is not True else ((False, False), (False, True), (True, False), (True, True)):
+                    if output in ("same", "respelled"):
+                        acc.outcome("output name that denotes the input file")
                     base = {"fs": fsname, "ext": ext, "enc": enc, "with_chart": with_chart, "key_only": with_chart, "output": output, "backup": backup, "variant": variant, "stale": stale}
                     if stale:
                         acc.outcome("output / backup name already taken by an older file")
                     # body faults
-                    for script in scripts:
+                    for script in (scripts if output in (False, True) else scripts[: 1 + len(MU.EDITS)]):
                         for at in range(len(script) + 1):
                             for exc in BODY_EXCEPTIONS:
                                 case = dict(base, kind="body", script=list(script), at=at, exc=exc)
@@ -405,7 +414,7 @@ def explore(run_):
     acc = run_.acc
     run_.extra = {"fault_points_enumerated": int(acc.c["fault_points"]), "fault_free_runs": int(acc.c["fault_free_runs"])}
     run_.rule = (
-        f"for {{MemoryFS, native}} x {{.sm, .ssc}} x detected encoding {MU.ENCODINGS} x layout x output name x backup name x (names free | already taken by older files): "
+        f"for {{MemoryFS, native}} x {{.sm, .ssc}} x detected encoding {MU.ENCODINGS} x layout x output name (none, another file, the input's own name, the input's name respelled) x backup name x (names free | already taken by older files): "
         f"body faults = {len(BODY_EXCEPTIONS)} exception classes at every position of every edit script of length <= {maxlen}; "
         "serialization faults = non-string value in the first/middle/last property, SSC chart without note data first/last; "
         "encoding faults = a character the detected encoding lacks in the first/middle/last parameter or an appended chart; "
@@ -418,6 +427,7 @@ def explore(run_):
     ]
     for what in ("body fault: cancel", "body fault: exception", "serialization fault", "encoding fault", "I/O fault at open", "I/O fault at write", "I/O fault at close"):
         core.require(acc.outcomes[what] > 0, f"never exercised: {what}")
+    core.require(acc.outcomes["output name that denotes the input file"] > 0, "output name = input never tried")
     core.require(acc.outcomes["output / backup name already taken by an older file"] > 0, "no pre-existing output / backup file")
     return run_.finish(
         states=acc.c["states"],
